@@ -27,6 +27,7 @@ type XItem struct {
 	Text   string `json:"t,omitempty"` // text / comment body / directive body / PI instruction
 	Target string `json:"g,omitempty"` // PI target
 	CData  bool   `json:"cd,omitempty"`
+	Split  int    `json:"sp,omitempty"` // text written in two pieces side by side: n>0 plain Text[:n] then CDATA, n<0 CDATA Text[:-n] then plain
 }
 
 // XElem is an element.
@@ -226,7 +227,18 @@ func renderElem(sb *strings.Builder, e *XElem, rv int) {
 		case 'e':
 			renderElem(sb, it.Elem, rv)
 		case 't':
-			if it.CData {
+			if it.Split != 0 {
+				n, plainFirst := it.Split, true
+				if n < 0 {
+					n, plainFirst = -n, false
+				}
+				a, b := it.Text[:n], it.Text[n:]
+				if plainFirst {
+					sb.WriteString(xmlEsc(a, false) + "<![CDATA[" + b + "]]>")
+				} else {
+					sb.WriteString("<![CDATA[" + a + "]]>" + xmlEsc(b, false))
+				}
+			} else if it.CData {
 				sb.WriteString("<![CDATA[" + it.Text + "]]>")
 			} else {
 				v := xmlEsc(it.Text, false)
@@ -328,6 +340,7 @@ type Deco struct {
 	Name  string `json:"name,omitempty"`
 	Value string `json:"value,omitempty"`
 	CData bool   `json:"cdata,omitempty"`
+	Split int    `json:"split,omitempty"`
 }
 
 func splitQ(q string) (string, string) {
@@ -380,7 +393,7 @@ func applyDecos(base *XElem, ds []Deco) (*XElem, bool) {
 				return nil, false
 			}
 			textOn[d.El] = true
-			pending[d.El] = append(pending[d.El], ins{d.Pos, XItem{Kind: 't', Text: d.Value, CData: d.CData}, i})
+			pending[d.El] = append(pending[d.El], ins{d.Pos, XItem{Kind: 't', Text: d.Value, CData: d.CData, Split: d.Split}, i})
 		case 'c':
 			pending[d.El] = append(pending[d.El], ins{d.Pos, XItem{Kind: 'c', Text: d.Value}, i})
 		case 'p':
